@@ -57,7 +57,7 @@ def sev(start, dur, vel, tick, total, n, pre=None, k=None):
 class C20(Property):
     id = "C20"
     lean_module = "RosuModel.Props.C20Full"   # imports Props/C20Exact.lean (→ Props/C20.lean) and Props/C20Ieee.lean; all in namespace Rosu.C20
-    theorem_modules = ['RosuModel.Props.C20Exact', 'RosuModel.Props.C20Ieee', 'RosuModel.Props.C20IeeeTicks']   # files whose top-level theorems are all audited
+    theorem_modules = ['RosuModel.Props.C20Exact', 'RosuModel.Props.C20Ieee', 'RosuModel.Props.C20IeeeTicks', 'RosuModel.Props.C20IeeeErr']   # files whose top-level theorems are all audited
     namespace = "Rosu.C20"
     design_ref = "5.20"
     level_text = (
@@ -87,6 +87,7 @@ class C20(Property):
         "eager Rust reference written from the property text judges the implementation.")
     technique = "Lean 4 proof (induction over spans / stack discipline) + bit-exact differential correspondence on the public iterator"
     required_theorems = [
+        "ticks_near_multiples_float", "tick_rel_err_float", "tick_rel_err_crude_float", "tick_abs_err_after_new_float", "first_tick_exact_float", "exG_third_tick_off",
         "stream_shape", "stream_shape_spec", "stream_fuel_exhausted", "event_count", "buffer_irrelevant", "runSeq_buffer_irrelevant",
         "takeAcc_prefix", "collectAcc_eq_collect", "eventsOf_eq_concat",
         "repeats_all_present", "head_form", "repeat_form", "last_tick_form", "tail_form",
@@ -106,8 +107,13 @@ class C20(Property):
     partial_theorems = {
         "ticks_at_multiples / ticks_at_multiples_exact / stream_ticks_exact":
             "exact arithmetic only (ExactNum: instances Rat, reals), about spanTickDists / the events collect returns; in IEEE f64 the k-th distance is the "
-            "k-fold ROUNDED sum ((t+t)+t)+... (checked on the implementation to lie within (k+1) ulp of the exact multiple, deviation reported); not proved for IEEE "
-            "(tick positions at exact multiples need the field laws add_mul / add_assoc, which rounding breaks; OrderedFieldLaws Float is refuted: orderedFieldLaws_float_false)",
+            "k-fold ROUNDED sum ((t+t)+t)+... and is NOT the exact multiple (exG_third_tick_off: for t = 0.1 the third distance is 3t + 2^-55, kernel-evaluated). NOW WITH A PROVED IEEE ERROR BOUND "
+            "(Props/C20IeeeErr.lean over Lemmas/FloatErr.lean, sixth session): toRat = the exact rational value of a finite double; add_err_float — the standard model of IEEE addition for Lean's logical doubles, "
+            "toRat (a + b) = (toRat a + toRat b)(1 + d) with |d| <= 2^-53 for finite a, b, a + b (all signs, zeros, subnormals, cancellation; from rq_half_ulp: rounding is to NEAREST); "
+            "ticks_near_multiples_float — for the distances ds spanTickDists returns on doubles (finite len; no hypothesis on the tick distance t) the (k+1)-th one satisfies "
+            "(k+1) t (1 - 2^-53)^k <= ds[k] <= (k+1) t (1 + 2^-53)^k, the first one is t exactly (first_tick_exact_float); tick_rel_err_float, tick_rel_err_crude_float "
+            "(|ds[k] - (k+1)t| <= (k+1)^2 2^-52 t for k <= 2^53), and after SliderEventsIter::new (len <= 100000) tick_abs_err_after_new_float: |ds[k] - (k+1)t| <= k 2^-36 whatever t. "
+            "These are theorems about Float.Model; the path PROGRESS d/len and the tick TIME of each event add one division / multiplication each, for which no error bound is proved yet",
         "ticks_respect_min_distance_strict / ticks_respect_min_distance_exact":
             "the generic forms need a total order (OrderedFieldLaws.lt_of_not_le, false with NaN); the structural ticks_respect_min_distance states both guards exactly as the code tests "
             "them and holds for IEEE. NOW ALSO FOR IEEE DOUBLES (Props/C20Ieee.lean; Lean 4.33's Float is a structure over the logical model Float.Model and the comparisons reduce in the kernel; order theory of "
